@@ -149,15 +149,12 @@ func ruleBatchTimer(c *Ctx, r *R) {
 		}
 		return 0, false
 	}
-	pf.Edge = func(fn *ssa.Function, b *ssa.BasicBlock, idx int, q int) (StateSet, bool) {
+	pf.Edge = func(fn *ssa.Function, g guard, q int) (StateSet, bool) {
+		b := g.blk
+		_ = b
 		if q == ERR {
 			return ss(ERR), true
 		}
-		iff, ok := b.Instrs[len(b.Instrs)-1].(*ssa.If)
-		if !ok {
-			return 0, false
-		}
-		g := guard{cond: iff.Cond, val: idx == 0}
 		cf, ok := g.asCmp()
 		if !ok {
 			return 0, false
@@ -506,12 +503,10 @@ func ruleBatchDelivery(c *Ctx, r *R) {
 		}
 		// blocks where err is known != nil and != End and that leave the loop without storing it
 		pf := &PF{N: 4} // 0 unknown, 1 nil-or-End (benign), 2 pending error, 3 recorded/self-cancel
-		pf.Edge = func(fn *ssa.Function, b *ssa.BasicBlock, idx int, q int) (StateSet, bool) {
-			iff, ok := b.Instrs[len(b.Instrs)-1].(*ssa.If)
-			if !ok {
-				return 0, false
-			}
-			cf, ok := guard{cond: iff.Cond, val: idx == 0}.asCmp()
+		pf.Edge = func(fn *ssa.Function, g guard, q int) (StateSet, bool) {
+		b := g.blk
+		_ = b
+			cf, ok := g.asCmp()
 			if !ok {
 				return 0, false
 			}
@@ -532,7 +527,7 @@ func ruleBatchDelivery(c *Ctx, r *R) {
 				selfCancel := (cf.op == token.EQL && !isNilConst(cf.y)) || (cf.op == token.NEQ && isNilConst(cf.y))
 				if selfCancel && q == 2 {
 					// only if err itself was tested against context.Canceled on this path
-					for _, g := range append(guardsOf(b), guard{cond: iff.Cond, val: idx == 0, blk: b}) {
+					for _, g := range append(guardsOf(b), g) {
 						if c2, ok := g.asCmp(); ok && c2.x == errV && c2.op == token.EQL && strings.HasSuffix(path(c2.y), "Canceled") {
 							return ss(3), true
 						}
@@ -574,7 +569,25 @@ func ruleBatchDelivery(c *Ctx, r *R) {
 	}
 	// reads of iter.err are dominated by a !ok edge of a receive from batchC; each !ok block returns err if non-nil else End
 	nr := 0
-	instrs(nx, func(b *ssa.BasicBlock, i int, in ssa.Instruction) {
+	errReaders := []*ssa.Function{nx}
+	for _, op := range chanOpsOf(nx) {
+		for _, a := range op.arms {
+			if cal, _ := tailCallee(a.body); cal != nil && fieldOfChan(a.ch) == "batchC" {
+				dup := false
+				for _, f := range errReaders {
+					if f == cal {
+						dup = true
+					}
+				}
+				if !dup {
+					errReaders = append(errReaders, cal)
+				}
+			}
+		}
+	}
+	for _, rf := range errReaders {
+	rf := rf
+	instrs(rf, func(b *ssa.BasicBlock, i int, in ssa.Instruction) {
 		ld, ok := in.(*ssa.UnOp)
 		if !ok || ld.Op != token.MUL {
 			return
@@ -598,61 +611,84 @@ func ruleBatchDelivery(c *Ctx, r *R) {
 				}
 			}
 		}
+		if rf != nx {
+			// inside the extracted helper: the read must be under its ok parameter being false, and the helper must
+			// only be called with the ok of a receive from batchC (checked by the closed-block rule)
+			for _, g := range guardsOf(b) {
+				if v, val := g.boolVal(); !val {
+					if _, isP := v.(*ssa.Parameter); isP {
+						closedSeen = true
+					}
+				}
+			}
+		}
 		r.ok(closedSeen, "stream.batchStream.Next|err-read-after-close#"+itoa(nr), ld.Pos(), "iter.err may only be read after batchC was observed closed (happens-before with the producer's write)")
 	})
-	// sibling !ok blocks
+	}
+	// sibling !ok blocks (the handling may have been extracted into a helper that both arms tail-call)
 	nb := 0
+	closedOK := func(fn *ssa.Function, okV ssa.Value, scope *ssa.BasicBlock) bool {
+		retErr, retEnd := false, false
+		for _, b := range fn.Blocks {
+			if scope != nil && !scope.Dominates(b) {
+				continue
+			}
+			notOK := false
+			errNonNil, errNil := false, false
+			for _, g := range guardsOf(b) {
+				if v, val := g.boolVal(); v == okV && !val {
+					notOK = true
+				}
+				if cf, ok := g.asCmp(); ok && strings.HasSuffix(path(cf.x), ".err") && isNilConst(cf.y) {
+					if cf.op == token.NEQ {
+						errNonNil = true
+					} else if cf.op == token.EQL {
+						errNil = true
+					}
+				}
+			}
+			if !notOK {
+				continue
+			}
+			if ret, ok := b.Instrs[len(b.Instrs)-1].(*ssa.Return); ok && len(ret.Results) == 2 {
+				e := path(ret.Results[1])
+				if errNonNil && strings.HasSuffix(e, ".err") {
+					retErr = true
+				}
+				if errNil && strings.HasSuffix(e, "End") {
+					retEnd = true
+				}
+			}
+		}
+		return retErr && retEnd
+	}
 	for _, op := range chanOpsOf(nx) {
 		sel, ok := op.in.(*ssa.Select)
 		if !ok {
 			continue
 		}
-		for k, a := range op.arms {
+		for _, a := range op.arms {
 			if a.send || fieldOfChan(a.ch) != "batchC" || a.body == nil {
 				continue
 			}
 			nb++
-			// the arm body branches on ok; the !ok side must return (nil, err) under err != nil and End otherwise
 			var okV ssa.Value
 			for _, ref := range *sel.Referrers() {
 				if ex, isEx := ref.(*ssa.Extract); isEx && ex.Index == 1 {
 					okV = ex
 				}
 			}
-			_ = k
-			retErr, retEnd := false, false
-			for _, b := range nx.Blocks {
-				if !a.body.Dominates(b) {
-					continue
-				}
-				notOK := false
-				errNonNil, errNil := false, false
-				for _, g := range guardsOf(b) {
-					if v, val := g.boolVal(); v == okV && !val {
-						notOK = true
-					}
-					if cf, ok := g.asCmp(); ok && strings.HasSuffix(path(cf.x), ".err") && isNilConst(cf.y) {
-						if cf.op == token.NEQ {
-							errNonNil = true
-						} else if cf.op == token.EQL {
-							errNil = true
-						}
+			good := false
+			if cal, call := tailCallee(a.body); cal != nil {
+				for ai, arg := range call.Call.Args {
+					if arg == okV && ai < len(cal.Params) {
+						good = closedOK(cal, cal.Params[ai], nil)
 					}
 				}
-				if !notOK {
-					continue
-				}
-				if ret, ok := b.Instrs[len(b.Instrs)-1].(*ssa.Return); ok && len(ret.Results) == 2 {
-					e := path(ret.Results[1])
-					if errNonNil && strings.HasSuffix(e, ".err") {
-						retErr = true
-					}
-					if errNil && strings.HasSuffix(e, "End") {
-						retEnd = true
-					}
-				}
+			} else {
+				good = closedOK(nx, okV, a.body)
 			}
-			r.ok(retErr && retEnd, "stream.batchStream.Next|closed-block#"+itoa(nb), posOf(op.in), "when batchC is closed Next must return iter.err if it is non-nil and End only otherwise (both sibling blocks)")
+			r.ok(good, "stream.batchStream.Next|closed-block#"+itoa(nb), posOf(op.in), "when batchC is closed Next must return iter.err if it is non-nil and End only otherwise (both sibling blocks)")
 		}
 	}
 	if nb < 2 {
